@@ -57,7 +57,7 @@ def run(chk):
             chk.violation("only the compose/ layout is populated but compose_path is %r" % cp, c, "dir_layout")
         elif list(lay) == ["direct"] and norm(cp) != root:
             chk.violation("only the direct layout is populated but compose_path is %r" % cp, c, "dir_layout")
-        elif list(lay) == ["legacy"] and norm(cp) != root + "/1.0":
+        elif list(lay) == ["legacy"] and norm(cp) != root + "/" + c.get("legacy_name", "1.0"):
             chk.violation("only the legacy layout is populated but compose_path is %r" % cp, c, "dir_layout")
         for acc, a, ma in zip(["info", "images", "rpms", "modules"], got[1:], m[1:]):
             if len(lay) == 1 and a[0] != "ok":
